@@ -1,0 +1,23 @@
+//go:build verif
+
+package group
+
+// Exports for the C15 (chat history) correspondence driver.  Add-only.
+
+// VerifHistoryRaw returns a copy of g.history as it is, without discarding
+// obsolete entries (GetChatHistory discards before it copies).
+func (g *Group) VerifHistoryRaw() []ChatHistoryEntry {
+	g.mu.Lock()
+	defer g.mu.Unlock()
+	h := make([]ChatHistoryEntry, len(g.history))
+	copy(h, g.history)
+	return h
+}
+
+// VerifHistoryMaxAge returns maxHistoryAge of the group's current
+// description, in nanoseconds.
+func (g *Group) VerifHistoryMaxAge() int64 {
+	g.mu.Lock()
+	defer g.mu.Unlock()
+	return int64(maxHistoryAge(g.description))
+}
